@@ -81,3 +81,17 @@ TRUSTED = ["extraction rewrite tables of units/C09.py", "stubs/harness code in u
 NOT_COVERED = ["boost::serialization archives, StateStorage::load / PlannerDataStorage::load header checks (marker, truncated stream) and the graph isomorphism of stored PlannerData (boost graph)",
                "RealVector memcpy of stateBytes_ (symbolic length), SO3/SE2/SE3 leaf serialization, ScopedState conversions, copyToReals/copyFromReals, partial copies via advancedStateCopy beyond the comparator",
                "PlannerData::clear() not resetting its index maps and a vertex that is both start and goal being stored as start only (observed by a seeding agent; not triaged)"]
+
+MISC_CPPS = ['src/ompl/base/src/StateSpace.cpp', 'src/ompl/base/src/PlannerData.cpp', 'src/ompl/base/src/PlannerDataStorage.cpp', 'src/ompl/base/spaces/src/SO2StateSpace.cpp', 'src/ompl/base/spaces/src/DiscreteStateSpace.cpp', 'src/ompl/base/spaces/src/TimeStateSpace.cpp', 'src/ompl/base/spaces/src/RealVectorStateSpace.cpp']
+NATIVE = [
+    dict(name="kf_discrete_reals_witness", driver="native/misc_native.cpp", link_ompl=True, unit_cpps=MISC_CPPS, args=["c09kf", 1, 1], known_id="discrete-reals"),
+    dict(name="c09_native_search", driver="native/misc_native.cpp", link_ompl=True, unit_cpps=MISC_CPPS, args=lambda tier, seed: ["c09", seed, 400 if tier == "quick" else 40000], timeout=900),
+]
+
+
+def replay(ur, scratch, seed):
+    """Search the real classes for a failing input (native/misc_native.cpp, mode c09)."""
+    from vf import native as N, cbmc as C
+    exe = N.build_driver("native/misc_native.cpp", scratch, link_ompl=True, unit_cpps=MISC_CPPS)
+    r = C.run_cmd([exe, "c09", str(seed), "10000"], 600, env=N.run_env())
+    return dict(found=(r["rc"] == 1), driver="native/misc_native.cpp", args=["c09", seed, 10000], link_ompl=True, unit_cpps=MISC_CPPS, output=r["out"][-2500:])
